@@ -12,7 +12,11 @@ Inductive oreach (pre : Z -> bool) : ost -> Prop :=
 | oreach_main tl f a ra : bal 0 (core_of f) = true -> oreach pre (os_main tl (boot pre) reg0 f a ra)
 | oreach_step s d : oreach pre s -> oreach pre (ostep d s)
 | oreach_again tl s f a ra : oreach pre s -> idle s = true -> bal 0 (core_of f) = true ->
-                       oreach pre (os_main tl (dsp s) (reg s) f a ra).
+                       oreach pre (os_main tl (dsp s) (reg s) f a ra)
+(* the main flow decides at an operation boundary what it does next: well nested relative to the blocks the application
+   holds at that moment - in particular it may release blocks that a callback took (Proofs.reach_ops) *)
+| oreach_flow s f : oreach pre s -> hs s = [] -> at_op (core s) = true -> bal (depth (core s)) (core_of f) = true ->
+                    oreach pre (set_flow s f).
 
 Definition oexec (ds : list Z) (s : ost) : ost := fold_left (fun s d => ostep d s) ds s.
 
@@ -296,6 +300,21 @@ Proof.
   - rewrite Hd. auto.
 Qed.
 
+(* the callback's own blockSignals() changes blocked_ / the blocks held only: nothing the OS layer looks at *)
+Lemma stack_cbb c : stack (cb_block c) = stack c.
+Proof. unfold cb_block. destruct (stack c) as [|f r] eqn:E; [exact E|]. destruct (h_pc f); try exact E. reflexivity. Qed.
+Lemma arrs_cbb c : arrs (cb_block c) = arrs c.
+Proof. unfold cb_block. destruct (stack c) as [|f r]; [reflexivity|]. destruct (h_pc f); reflexivity. Qed.
+
+Lemma oinv_cbb pre c d h ac dr r : OInv pre (mkO c d h ac dr r) -> OInv pre (mkO (cb_block c) d h ac dr r).
+Proof.
+  intros [[o [a [Hb Hr]]] Hl Hh Hd Ha Hin Hlv Hft Hal Hna]. cbn [core dsp hs acc drp reg] in *.
+  constructor; cbn [core dsp hs acc drp reg]; auto.
+  - exists o, a. split; [exact Hb|apply reach_cbb; exact Hr].
+  - rewrite stack_cbb. exact Hl.
+  - intro x. rewrite arrs_cbb. apply Ha.
+Qed.
+
 Lemma oinv_step pre d s : OInv pre s -> OInv pre (ostep d s).
 Proof.
   intros HO. pose proof HO as [[o [a [Hb Hr]]] Hl Hh Hd Ha Hin Hlv Hft Hal Hna].
@@ -318,14 +337,15 @@ Proof.
            assert (B2 : alarm_set (pop_flow (reg s)) = false -> dsp s alarm_sig = boot pre alarm_sig)
              by (intro H; apply Hna; exact H).
            apply oinv_core_step; auto.
-      * destruct (alarm_cb pre (core s) (reg s) (dsp s) [] [] eq_refl eq_refl Hal Hna) as [A1 A2].
-        assert (B0 : forall y, y <> alarm_sig -> cb_dsp (core s) (reg s) (dsp s) y = dsp s y)
+      * unfold cstep. destruct (cbblock_now (core s) (reg s)); [apply oinv_cbb|].
+        all: destruct (alarm_cb pre (core s) (reg s) (dsp s) [] [] eq_refl eq_refl Hal Hna) as [A1 A2].
+        all: assert (B0 : forall y, y <> alarm_sig -> cb_dsp (core s) (reg s) (dsp s) y = dsp s y)
           by (intros y Hy; apply cb_dsp_reg; exact Hy).
-        assert (B1 : alarm_set (cb_reg (core s) (reg s)) = true -> cb_dsp (core s) (reg s) (dsp s) alarm_sig = DHandler)
+        all: assert (B1 : alarm_set (cb_reg (core s) (reg s)) = true -> cb_dsp (core s) (reg s) (dsp s) alarm_sig = DHandler)
           by (intro H; apply A1; [exact H|simpl; auto]).
-        assert (B2 : alarm_set (cb_reg (core s) (reg s)) = false -> cb_dsp (core s) (reg s) (dsp s) alarm_sig = boot pre alarm_sig)
+        all: assert (B2 : alarm_set (cb_reg (core s) (reg s)) = false -> cb_dsp (core s) (reg s) (dsp s) alarm_sig = boot pre alarm_sig)
           by (intro H; apply A2; exact H).
-        apply oinv_core_step; auto.
+        all: apply oinv_core_step; auto.
     + destruct e as [x ph]. simpl in Hh. destruct Hh as [Hx Hok]. cbn [s_ph s_sig].
       assert (Hnz : x <> 0).
       { destruct Hx as [->|[Hreg _]]; [discriminate|apply is_reg_nz; exact Hreg]. }
@@ -347,6 +367,10 @@ Proof.
         -- intro Hs. destruct (Hna Hs) as [H1 H2]. simpl in H2. split; [|simpl; exact H2].
            unfold upd. destruct (Z.eqb_spec alarm_sig x) as [He|He]; [exfalso; apply H2; left; auto|exact H1].
       * (* PRun: one step of its processSignal activation *)
+        cbv zeta. unfold cstep.
+        match goal with |- OInv pre (mkO _ ?d (if (length (stack _) <? ?n)%nat then ?h1 else ?h2) ?a ?dr ?rr) =>
+          assert (G : OInv pre (mkO (step true 0 (core s)) d (if (length (stack (step true 0 (core s))) <? n)%nat then h1 else h2) a dr rr));
+          [|destruct (cbblock_now (core s) (reg s)); [rewrite stack_cbb; apply oinv_cbb|]; exact G] end.
         destruct (stack (core s)) as [|f rest] eqn:Hs.
         { exfalso. rewrite running_cons in Hl. simpl in Hl. discriminate. }
         destruct (nondef_top _ _ _ _ _ HI Hs Hl eq_refl) as [Hdf [Hsg Hrest]]. simpl in Hsg.
@@ -413,9 +437,20 @@ Proof.
       ocons; eauto.
 Qed.
 
+Lemma oinv_flow pre s f : OInv pre s -> hs s = [] -> at_op (core s) = true -> bal (depth (core s)) (core_of f) = true ->
+  OInv pre (set_flow s f).
+Proof.
+  intros [[o [a [Hb Hr]]] Hl Hh Hd Ha Hin Hlv Hft Hal Hna] Hhs Hat Hbf.
+  assert (Hs : stack (core s) = [] /\ mpc_ (core s) = MOp).
+  { unfold at_op in Hat. destruct (stack (core s)); [|discriminate]. destruct (mpc_ (core s)); try discriminate. auto. }
+  destruct Hs as [Hs Hm].
+  unfold set_flow. constructor; cbn [core dsp hs acc drp reg inst live nxt fault alarm_set]; auto.
+  exists o, a. split; [exact Hb|apply reach_ops; assumption].
+Qed.
+
 Theorem oreach_inv pre s : oreach pre s -> OInv pre s.
 Proof.
-  induction 1 as [tl f a ra Hb|s d _ IH|tl s f a ra _ IH Hi Hb].
+  induction 1 as [tl f a ra Hb|s d _ IH|tl s f a ra _ IH Hi Hb|s f _ IH Hhs Hat Hb]; [| | |apply oinv_flow; assumption].
   - apply oinv_main. exact Hb.
   - apply oinv_step. exact IH.
   - apply oinv_again; [exact IH| |exact Hb].
